@@ -63,6 +63,19 @@ def lake_build(targets, timeout=3600):
     """returns (ok, combined output)"""
     with Lock("lean"):
         rc, out, err, dt = run(["lake", "build"] + list(targets), cwd=LEAN, timeout=timeout)
+        if rc != 0 and "undefined symbol" in (out + err):
+            # a truncated object file left behind by an interrupted/concurrent native compile: drop tiny objects and retry once
+            ir = os.path.join(LEAN, ".lake", "build", "ir")
+            for dp, dn, fn in os.walk(ir):
+                for f in fn:
+                    if f.endswith(".c.o.export") and os.path.getsize(os.path.join(dp, f)) < 2048:
+                        for suf in ("", ".hash", ".trace"):
+                            try:
+                                os.remove(os.path.join(dp, f + suf))
+                            except OSError:
+                                pass
+            rc, out, err, dt2 = run(["lake", "build"] + list(targets), cwd=LEAN, timeout=timeout)
+            dt += dt2
         return rc == 0, out + err, dt
 
 
